@@ -737,6 +737,21 @@ def check_copy(ctx, o):
     rows_of = lambda ob: [_bits(ob.translations), _bits(ob.rotations), _bits(ob.scores), _bits(ob.details)]
     want = [_bits(o["t"]), _bits(o["a"]), _bits(o["s"]), _bits(o["d"])]
     c, err = _quiet(obj.copy)
+    mc = ctx.driver.call("c11.copy", n=n)
+    if err or isinstance(mc, str):
+        ctx.agree("copy(outcome)", inp, "err:" + str(err) if err else "ok", mc if isinstance(mc, str) else "ok")
+    else:
+        ctx.agree("copy(rows)", inp, rows_of(c), [[_bits(o[k][i]) for i in rows] for k, rows in zip(("t", "a", "s", "d"), mc)])
+    it, ierr = _quiet(lambda: [tuple(_bits(x) for x in tup) for tup in obj])
+    mi = ctx.driver.call("c11.iter", n=n)
+    if ierr or isinstance(mi, str):
+        ctx.agree("iter(outcome)", inp, "err:" + str(ierr) if ierr else "ok", mi if isinstance(mi, str) else "ok")
+    else:
+        ctx.agree("iter(rows)", inp, [list(tup) for tup in it],
+                  [[_bits(o["t"][q[0]]), _bits(o["a"][q[1]]), _bits(o["s"][q[2]]), _bits(o["d"][q[3]])] for q in mi])
+        ctx.spec("subset: iteration yields one (translation, rotation, score, detail) tuple per orientation, in order", inp,
+                 len(it) == n and all(list(it[i]) == [_bits(o["t"][i]), _bits(o["a"][i]), _bits(o["s"][i]), _bits(o["d"][i])] for i in range(n)),
+                 key="subset:iter:rows", size=n)
     if err:
         return ctx.spec("subset: copy() succeeds", inp, False, err, key="subset:copy:raises", size=n)
     ok = ctx.spec("subset: copy() returns every row, in order", inp, rows_of(c) == want and
@@ -748,6 +763,71 @@ def check_copy(ctx, o):
         ctx.distinct(("copy", n, _crc(json_key(want[0][:4]))))
     ctx.count("copy")
     return ok
+
+
+# ------------------------------------------------------------------------------------------ constructor validation
+
+POST_INIT_CONTAINERS = ["array", "array64", "int", "list", "fortran"]
+
+
+def check_post_init(ctx, shapes, container="array"):
+    """shapes: the shapes of translations / rotations / scores / details handed to the constructor (any rank 0..3)"""
+    from tme import Orientations
+    shapes = [[int(x) for x in sh] for sh in shapes]
+    inp = {"family": "post_init", "shapes": shapes, "container": container}
+
+    def arr(sh, k):
+        size = int(np.prod(sh)) if len(sh) else 1
+        a = (np.arange(size, dtype=np.float64) * 0.5 + k).reshape(sh)
+        if container == "array":
+            return a.astype(np.float32)
+        if container == "int":
+            return a.astype(np.int64)
+        if container == "list":
+            return a.tolist()
+        if container == "fortran":
+            return np.asfortranarray(a.astype(np.float32))
+        return a
+    args = [arr(sh, k) for k, sh in enumerate(shapes)]
+    shapes = [list(np.array(a).shape) for a in args]      # a nested list with an empty axis loses the axes behind it
+    obj, err = _quiet(lambda: Orientations(translations=args[0], rotations=args[1], scores=args[2], details=args[3]))
+    m = ctx.driver.call("c11.postInit", t=shapes[0], r=shapes[1], s=shapes[2], d=shapes[3])
+    ctx.agree("post_init(outcome)", inp, "err:" + err if err else "ok", m)
+    well = (len(shapes[0]) == 2 and len(shapes[1]) == 2 and len(shapes[2]) == 1 and len(shapes[3]) == 1
+            and len({sh[0] for sh in shapes}) == 1)
+    if well:
+        got = None if err else [obj.translations, obj.rotations, obj.scores, obj.details]
+        want = [np.asarray(a, dtype=np.float64).astype(np.float32) for a in args]
+        ok = got is not None and all(g.dtype == np.float32 and list(g.shape) == sh and _bits(g) == _bits(w)
+                                     for g, sh, w in zip(got, shapes, want))
+        ctx.spec("constructor: a well-formed orientation set is accepted and stored as float32 arrays of the given shapes and values",
+                 inp, ok, err, key="ctor:well-formed", size=sum(sum(sh) for sh in shapes))
+        if shapes[0][0] > 0:
+            ctx.distinct(("post_init", "ok", tuple(map(tuple, shapes)), container))
+    elif err:
+        ctx.distinct(("post_init", err, tuple(map(tuple, shapes))))
+    ctx.count("post_init:" + (err or "ok"))
+    ctx.count("post_init:container=" + container)
+
+
+def gen_post_init(rng):
+    n = int(rng.choice([0, 1, 2, 3, 5]))
+    k = rng.random()
+    shapes = [[n, int(rng.choice([1, 2, 3]))], [n, int(rng.choice([1, 2, 3]))], [n], [n]]
+    if k < 0.35:
+        return shapes                                  # well-formed
+    for _ in range(int(rng.choice([1, 1, 2, 4]))):
+        j = int(rng.integers(0, 4))
+        what = rng.random()
+        if what < 0.35:                                # another row count
+            shapes[j] = [int(rng.choice([0, 1, 2, 3, 5]))] + shapes[j][1:]
+        elif what < 0.55:                              # 0-d
+            shapes[j] = []
+        elif what < 0.8:                               # one axis more
+            shapes[j] = shapes[j] + [int(rng.choice([0, 1, 2]))]
+        else:                                          # one axis less
+            shapes[j] = shapes[j][:-1]
+    return shapes
 
 
 # ------------------------------------------------------------------------------------------ windows
@@ -769,6 +849,14 @@ def check_windows(ctx, o, target, box, tag="gen", call="tuple"):
     obj = make(o)
     peaks = [[int(math.trunc(float(v))) for v in row] for row in o["t"]]
     size = n * d + sum(target) + sum(box)
+    # peaks = self.translations.astype(int): the model's truncation of the exact binary value m * 2^e of every float32
+    if n and np.all(np.isfinite(o["t"])) and float(np.max(np.abs(o["t"]))) < 2.0 ** 62:
+        def m_e(v):
+            mant, ex = math.frexp(float(np.float32(v)))
+            return [int(mant * 2 ** 24), ex - 24]
+        mp = ctx.driver.call("c11.peaks", t=[[m_e(v) for v in row] for row in o["t"]])
+        ctx.agree("extraction(peaks)", inp, obj.translations.astype(int).tolist(), mp)
+        ctx.agree("extraction(peaks used)", inp, peaks, mp)
     res = {}
     for drop in (False, True):
         out, err = _quiet(obj.get_extraction_slices, conv(target), conv(box), drop, True)
@@ -782,6 +870,15 @@ def check_windows(ctx, o, target, box, tag="gen", call="tuple"):
         model = [[[w[0], w[1], w[2], w[3]] for w in e["w"]] for e in m]
         ctx.agree("extraction(slices)", {**inp, "drop": drop}, impl, model)
         ctx.agree("extraction(kept rows)", {**inp, "drop": drop}, _bits(sub.translations), [_bits(o["t"][e["i"]]) for e in m])
+        # subset = self[keep_peaks]: the model's boolean selection with its keep mask, all four arrays
+        kr = ctx.driver.call("c11.keepRows", target=list(target), box=list(box), peaks=peaks, drop=drop)
+        if isinstance(kr, str):
+            ctx.agree("extraction(subset outcome)", {**inp, "drop": drop}, "ok", kr)
+        else:
+            ctx.agree("extraction(subset rows)", {**inp, "drop": drop},
+                      [_bits(sub.translations), _bits(sub.rotations), _bits(sub.scores), _bits(sub.details)],
+                      [[_bits(o[k][i]) for i in rows] for k, rows in zip(("t", "a", "s", "d"), kr["rows"])])
+            ctx.agree("extraction(keep mask)", {**inp, "drop": drop}, [e["i"] for e in m], [i for i, b in enumerate(kr["mask"]) if b])
         res[drop] = (sub, slices_to_ints(cand), slices_to_ints(obs))
     sub0, cand0, obs0 = res[False]
     ok = True
@@ -1157,6 +1254,8 @@ def replay_input(ctx, inp):
         return check_session(ctx, orient_from_json(inp["orient"]), orient_from_json(inp["orient2"]), inp["steps"])
     if fam == "copy":
         return check_copy(ctx, orient_from_json(inp["orient"]))
+    if fam == "post_init":
+        return check_post_init(ctx, inp["shapes"], inp.get("container", "array"))
     if fam == "subset":
         return check_subset(ctx, orient_from_json(inp["orient"]), inp["sel"], inp["kind"], inp.get("container", "array"))
     if fam == "text-foreign":
@@ -1222,6 +1321,13 @@ def fixed_cases(ctx):
     check_dispatch(ctx, o0, "empty.Star", None, None)
     check_copy(ctx, g)
     check_copy(ctx, o0)
+    # constructor: every combination of ranks 0..3 for the four arrays (2 rows), and of row counts 0..2 at the expected ranks
+    import itertools
+    dims = {0: [], 1: [2], 2: [2, 3], 3: [2, 3, 1]}
+    for ranks in itertools.product(range(4), repeat=4):
+        check_post_init(ctx, [dims[k] for k in ranks])
+    for ns in itertools.product(range(3), repeat=4):
+        check_post_init(ctx, [[ns[0], 3], [ns[1], 3], [ns[2]], [ns[3]]], "list" if sum(ns) % 2 else "array64")
     # tables with more rows than 8- / 16-bit counters hold (thorough: more than 10 000 rows through every format)
     nb = ctx.budget(300, 12000)
     check_text(ctx, synthetic(nb, 3, 3, 1), shrink=False)
@@ -1299,6 +1405,8 @@ def stream(ctx, rng, scale=1.0, wide=False):
             check_subset(ctx, o, sel, "bool", container=str(rng.choice(["array", "array", "list", "tuple", "view", "readonly"])))
     for _ in range(nb(60, 400)):
         check_copy(ctx, gen_orient(rng, int(rng.choice([0, 1, 2, 7])), int(rng.choice([2, 3])), int(rng.choice([1, 3]))))
+    for _ in range(nb(300, 3000)):
+        check_post_init(ctx, gen_post_init(rng), str(rng.choice(POST_INIT_CONTAINERS)))
     # windows
     calls = list(WINDOW_CALLS)
     for _ in range(nb(1000, 8000)):
